@@ -873,15 +873,10 @@ class WSGIApp:
         sm_ref = self._get_submodel_reference(aas, url_args["submodel_id"])
         submodel = self._resolve_reference(sm_ref)
         new_submodel = HTTPApiDecoder.request_body(request, model.Submodel, is_stripped_request(request))
-        # determine whether the id changed in advance, in case something goes wrong while updating the submodel
-        id_changed: bool = submodel.id != new_submodel.id
-        # TODO: https://github.com/eclipse-basyx/basyx-python-sdk/issues/216
+        # as for PUT /submodels/<id>: the submodel stays filed under the identifier it is addressed by
+        self._expect_same_identity(submodel, new_submodel)
         submodel.update_from(new_submodel)
         submodel.commit()
-        if id_changed:
-            aas.submodel.remove(sm_ref)
-            aas.submodel.add(model.ModelReference.from_referable(submodel))
-            aas.commit()
         return response_t()
 
     def delete_aas_submodel_refs_submodel(self, request: Request, url_args: Dict, response_t: Type[APIResponse],
